@@ -41,6 +41,7 @@ func init() {
 			{ID: "C07.R20", Text: "once the threshold covers a waiting event that event is delivered: no lossy wake-up (same rule as C03.R16) and the observer that holds the threshold survives a re-open (same rule as C03.R15)", Run: func(c *Ctx, id string) { lossySignals(c, id); observerMapWriters(c, id) }},
 			{ID: "C07.R21", Text: "every persisted-sequence report reaches the observer it is for: no layer between the mitigation and the dispatcher that is not a proven pass-through (same rule as C20.R20)", Run: noNewLayers},
 			{ID: "C07.R22", Text: "the only wait in front of an event is the persistence wait: the gate receives from no channel and takes no lock (same rule as C20.R23)", Run: gateWaitsOnlyForPersistence},
+			{ID: "C07.R23", Text: "the persisted sequence number the threshold is computed from is the one the node reported: the observe callback hands on the result fields untouched, its error deciding (same rule as C20.R3)", Run: c20r3},
 			{ID: "C07.R6", Text: "close releases without delivering: observer.Close sets closed; listener called ⇔ ¬closed", Run: c07r6},
 		},
 	})
@@ -379,14 +380,12 @@ func c07r5(c *Ctx, id string) {
 		gClosed, gGen, gErr := false, false, false
 		for _, b := range blocksOf(in) {
 			gClosed = gClosed || guardedByDeep(b, false, func(v ssa.Value) bool { f, _ := flagRead(v); return f != nil && f.Name() == rmClosed })
-			genNe := func(v ssa.Value) bool {
-				o := w.Origin(v)
-				return strings.HasPrefix(o, "(recv.activeGroupID != param(") && strings.HasSuffix(o, "))")
+			genCmp := func(o, op string) bool { // the live generation against the one this observe was started under
+				pre := "(recv.activeGroupID " + op + " "
+				return strings.HasPrefix(o, pre) && strings.HasSuffix(o, ")") && isVParamOf(strings.TrimSuffix(strings.TrimPrefix(o, pre), ")"), obs)
 			}
-			genEq := func(v ssa.Value) bool {
-				o := w.Origin(v)
-				return strings.HasPrefix(o, "(recv.activeGroupID == param(") && strings.HasSuffix(o, "))")
-			}
+			genNe := func(v ssa.Value) bool { return genCmp(w.Origin(v), "!=") }
+			genEq := func(v ssa.Value) bool { return genCmp(w.Origin(v), "==") }
 			gGen = gGen || guardedByDeep(b, false, genNe) || guardedByDeep(b, true, genEq)
 			gErr = gErr || errGuard(b, true, func(v ssa.Value) bool { return v == ssa.Value(errP) })
 		}
@@ -468,7 +467,12 @@ func c07r5(c *Ctx, id string) {
 		} else {
 			tab, _ := allocTable(a)
 			vb, sq := subst(dispatch, w.Origin(tab["VbID"])), subst(dispatch, w.Origin(tab["SeqNo"]))
-			ok := vb == "param(vbID)" && sq == "call((*couchbase.rollbackMitigation).getMinSeqNo)(recv, param(vbID))"
+			ok := false
+			for _, v := range vparams(obs) {
+				if isUint16(v.Type()) && vb == v.Term() {
+					ok = sq == "call((*couchbase.rollbackMitigation).getMinSeqNo)(recv, "+vb+")"
+				}
+			}
 			c.Check(ok, id, "dispatch-arg", dispatch.Pos(), "dispatches (VbID ← "+vb+", SeqNo ← "+sq+")", "dispatches (VbID ← "+vb+", SeqNo ← "+sq+"), expected (vbID, getMinSeqNo(vbID))")
 			// getMinSeqNo is evaluated after the replica table was updated
 			var gm *ssa.Call
@@ -840,6 +844,14 @@ func replicaStateType(w *World) *types.Named {
 		for _, o := range w.observerImpls() {
 			if o == nt {
 				isObs = true
+			}
+			// a part of the observer embedded by value (its mutable state grouped into a struct) is the observer
+			if ost, isSt := o.Underlying().(*types.Struct); isSt {
+				for i := 0; i < ost.NumFields(); i++ {
+					if embeddedPart(ost.Field(i)) && types.Identical(ost.Field(i).Type(), nt) {
+						isObs = true
+					}
+				}
 			}
 		}
 		if hasU && hasS && !isObs {
